@@ -18,8 +18,10 @@ for pid in ids:
         replay_cmd_template="cat {path}",
         engine="KX" if any(x.startswith("kani:") for x in P["units_quick"]) else ("SX" if any(x.startswith("symx:") for x in P["units_quick"]) else "VX"),
         level_claimed=dict(category=P.get("category", "proof"), text=P['claim'], design_ref=P.get('design_ref', 'DESIGN.md section 3')),
-        level_note="; ".join(P.get('assumptions', [])) + ("; NOT covered: " + "; ".join(P['not_covered']) if P.get('not_covered') else ''),
-        technique=P.get('technique', "contract-based deductive verification: Verus contracts woven onto the real functions sliced from rustc's expansion of /repo; generated ring/tracking proofs checked by Verus"),
+        level_note="; ".join(P.get('assumptions', [])) + ("; NOT covered: " + "; ".join(P['not_covered']) if P.get('not_covered') else '')
+                   + ("; STAND-INS (labelled tests, never counted as proved; run on every check against an independent reference): " + ", ".join(P['standins']) if P.get('standins') else ''),
+        technique=P.get('technique', "contract-based deductive verification: Verus contracts woven onto the real functions sliced from rustc's expansion of /repo; generated ring/tracking proofs checked by Verus")
+                  + (" | functions outside the verifier's reach: labelled stand-in tests of the compiled crate on structured inputs (vx/refute.py), reported separately" if P.get('standins') else ''),
     ))
 m = dict(
     version=1,
